@@ -179,14 +179,15 @@ PSTR_LITS = [
     encodes=["fakesnow.cursor.FakeSnowflakeCursor._rewrite_with_params", "SnowflakeConverter.to_snowflake/escape/quote (real)"],
     bounds="1..3 placeholders (%s with a tuple or %(name)s with a dict, names in any order) between fixed fragments; parameter values: "
     "int derived from one symbolic n in -2..11 (n, 7-n, 100n; the connector renders ints with repr(), which enumerates values), "
-    "bool, None or a string needing escapes, chosen symbolically per position; sharded by (number of placeholders, kind of the first)",
+    "bool, None, a string needing escapes, or (first placeholder only) a list / tuple for IN of two such strings, an int, None and a bool, chosen symbolically per position; "
+    "sharded by (number of placeholders, kind of the first)",
     timeout=(300, 900),
-    shards=(12, 12),
+    shards=(18, 18),
     stubs=["SnowflakeConverter.to_snowflake dispatch by isinstance to the real per-type methods"],
 )
 def placeholders(k: int, as_dict: bool, t0: int, t1: int, t2: int, n: int) -> bool:
     """
-    pre: 1 <= k <= 3 and 0 <= t0 <= 3 and 0 <= t1 <= 3 and 0 <= t2 <= 3 and -2 <= n <= 11
+    pre: 1 <= k <= 3 and 0 <= t0 <= 5 and 0 <= t1 <= 3 and 0 <= t2 <= 3 and -2 <= n <= 11
     pre: SHARD < 0 or (k == SHARD % 3 + 1 and t0 == SHARD // 3)
     post: _
     """
@@ -206,10 +207,17 @@ def placeholders(k: int, as_dict: bool, t0: int, t1: int, t2: int, n: int) -> bo
         elif kind == 2:
             vals.append(None)
             lits.append("NULL")
-        else:
+        elif kind == 3:
             sv, sl = PSTR_LITS[(n + 2) % len(PSTR_LITS)]
             vals.append(sv)
             lits.append(sl)
+        else:
+            # a list / tuple bound for IN (%s): every element is written as its own literal, exactly once escaped, comma separated
+            sv, sl = PSTR_LITS[(n + 2) % len(PSTR_LITS)]
+            sv2, sl2 = PSTR_LITS[(n + 3) % len(PSTR_LITS)]
+            elems = [sv, n, None, sv2, n > 0]
+            vals.append(elems if kind == 4 else tuple(elems))
+            lits.append(",".join([sl, str(n), "NULL", sl2, "TRUE" if n > 0 else "FALSE"]))
     if as_dict:
         names = ["a", "b", "c"][:k]
         cmd = FRAGS[0] + "".join(f"%({nm})s" + FRAGS[i + 1] for i, nm in enumerate(names))
